@@ -553,6 +553,24 @@ def correspond(ctx):
     for ci, case in enumerate(layout_cases(ctx)):
         st.count("engine-layout:" + ",".join(case.get("layout", [])))
         engine_case(0 if ci % 8 == 0 else 6 * ci + 1, case)      # every 8th: all alias / mode / formatting variants
+    # descriptions that consist of white space only (a blank, a tab, blanks and a line break): a description is a string like
+    # any other - the rebuilt component must hold it (derived from the engines above, no new random draw; oracle only)
+    import copy as _copy
+    blanks = [" ", "\t", "  ", " \n", "\u00a0"]
+    for ci, case in enumerate(engine_cases(ctx)):
+        if ci % 10 or case.get("origin") == "fll":
+            continue
+        c2 = _copy.deepcopy(case)
+        holders = [c2["spec"]] + c2["spec"]["inputs"] + c2["spec"]["outputs"] + c2["spec"]["blocks"]
+        for j, h in enumerate(holders):
+            h["description"] = blanks[(ci // 10 + j) % len(blanks)]
+        c2["family"] = "blank descriptions"
+        st.count("blank-descriptions")
+        ok, detail = oracle(c2)
+        if not ok:
+            small = shrink_engine(c2, lambda c: not oracle(c)[0]) if "shrink_engine" in globals() else c2
+            violation(small, oracle(small)[1])
+            break
     ctx.notes["engines_with_all_variants"] = n_full
     probes(ctx)
     outs = ctx.driver.eval(lines)
